@@ -153,6 +153,16 @@ CHECKS = {
              'function) are exercised, not modelled: that none of them raises a foreign exception is established by the outcome-class sweep over the grammar-derived inputs only. '
              'Exceptions at EVALUATION of a member (text arithmetic, 1/0, wrong argument types) are results of the formula and are not counted.',
         technique='Lean 4 termination proof generic in the grammar + regenerated rank table (Tie A) + outcome-class sweep, step counter and time bounds on the real code', design='5/C06'),
+    'C07': dict(
+        text='Lean 4 theorem quote_roundtrip: for EVERY text s and whatever follows it, the characters repr(s) writes lex (model of CPython string-literal lexing: quote choice, '
+             '\\\\ \\\' \\" \\n \\r \\t \\xNN) as exactly one string literal whose value is s, and lexing resumes right after it (literal_is_one_token) - by induction over the text with a '
+             'per-character escape/unescape lemma. Every place where workbook text enters the module (constants, text and wildcard literals, titles) goes through repr after the '
+             'repairs, so the text can only be inert data. Tie B: repr() of every generated string vs the Lean model; end-to-end planting of strings (exhaustive to length 2/3 over a '
+             '29-character alphabet, random to 14, injection payloads with a canary) in constants, literals, every criterion position and titles: module parses, planted text '
+             'is an ast.Constant, members of plain literals are exactly that Constant, values are exact, canary untouched after load and evaluation; safety check on/off via the facade.',
+        note='Trusted: Lean kernel; standard axioms; the model of repr / literal lexing (validated per string against CPython, code points < 128 exact, printable ones above pass through); '
+             'that every emission site uses repr is established by the end-to-end sweep (AST of the generated module), not by a Lean model of all translators.',
+        technique='Lean 4 proof (escape/unescape round trip for all strings) + differential correspondence with CPython repr + canary / AST inertness sweep on the real code', design='5/C07'),
 }
 
 WIP = set()   # built, proofs in progress: not claimed until green
